@@ -467,6 +467,11 @@ func (t *FnTrans) wStruct(l *loopInfo, T types.Type, prefix string) {
 
 func (t *FnTrans) wFieldComp(l *loopInfo, c string, ft types.Type) {
 	ft = t.resolve(ft)
+	if n, ok := ft.(*types.Named); ok && n.Obj().Pkg() != nil && n.Obj().Pkg().Path() == "sync/atomic" {
+		if ap, ok := t.atomicCell(Val{P: &Ptr{Kind: "field", Comp: c, Ref: "0", T: ft}}, "sync/atomic."+n.Obj().Name()+".Load"); ok {
+			t.w(l, ap.Comp, "(Array Int "+t.sortOf(ap.T)+")")
+		}
+	}
 	if _, ok := ft.Underlying().(*types.Struct); ok {
 		t.wStruct(l, ft, c)
 		// lock state / atomic value components that intrinsics attach to this field
